@@ -282,6 +282,9 @@ def frame_check(case):
         bad = fieldset_check(r, op, res)
         if bad:
             return ('field-set', op['op'], k, 'step %d (%s): %s' % (k, op['op'], bad))
+        bad = contract_check(r, op, res, scr)
+        if bad:
+            return ('contract', op['op'], k, 'step %d (%s): %s' % (k, op['op'], bad))
         for which, (a, sha0, cols0, id0) in enumerate(zip((r.w.data.exp, r.w.data.mc), r.sha0, r.cols0, r.ids0)):
             nm = 'data.exp' if which == 0 else 'data.mc'
             if id(a) != id0:
@@ -298,6 +301,48 @@ def frame_check(case):
                 return ('stored-data-changed', op['op'], k,
                         'step %d (%s, result %s): stored %s is altered: changed fields %r, added %r, removed %r%s, length %d' % (
                             k, op['op'], res[0], nm, changed, added, removed, ', field order changed' if order else '', len(a)))
+    return None
+
+
+def contract_check(r, op, res, scr):
+    """the scrambling contract inside a history: a generated background differs from its origin (data.exp for the fixed
+    method, the drawn rows of data.mc for the MC methods) only in the fields the scrambling method documents; those keep
+    the dtype of the stored field where the method promises it (uniform RA); same number of events for the fixed method"""
+    new = res[2]
+    if res[0] != 'ok' or new is None or op['op'] not in ('genFixed', 'genMC', 'genComp'):
+        return None
+    doc = pf.DOCUMENTED[scr] if scr else []
+    w = r.w
+    # every call generates its own sample: the new array is not, and shares no memory with, an earlier generated one
+    for i, h in enumerate(r.hs[:-1]):
+        if h is new:
+            return 'the generated background is the very array object returned as generated array #%d' % i
+        for n in new.field_name_list:
+            if n in h and new[n].size and np.shares_memory(new[n], h[n]):
+                return 'field %r of the generated background shares memory with generated array #%d' % (n, i)
+    if op['op'] == 'genFixed':
+        if len(new) != len(w.data.exp):
+            return 'the scrambled copy has %d events, the experimental data %d' % (len(new), len(w.data.exp))
+        origin = w.data.exp
+        rows = None
+    else:
+        origin = w.data.mc
+        pos = {u: i for i, u in enumerate(sf.ivals(origin['uid']))}
+        try:
+            rows = np.array([pos[u] for u in sf.ivals(new['uid'])], dtype=np.int64)
+        except KeyError as e:
+            return 'generated event with uid %s is no MC event' % e
+    for n in new.field_name_list:
+        if n not in origin:
+            continue
+        want = origin[n] if rows is None else origin[n][rows]
+        if n in doc:
+            if scr in ('uniform', 'uniform_range') and new[n].dtype != origin[n].dtype:
+                return 'field %r of the scrambled events has dtype %s, the stored field %s' % (n, new[n].dtype, origin[n].dtype)
+            continue
+        if new[n].dtype != origin[n].dtype or new[n].tobytes() != np.ascontiguousarray(want).tobytes():
+            return 'field %r is not documented to change by %s scrambling but differs from its origin (dtype %s -> %s)' % (
+                n, scr, origin[n].dtype, new[n].dtype)
     return None
 
 
@@ -398,6 +443,9 @@ def ra_range_check(spec, scr, ra_arr):
     dt = ra_arr.dtype.type
     lo_d, hi_d = float(dt(lo)), float(dt(hi))
     ra = ra_arr.astype(np.float64)
+    if scr in ('i3time', 'seasonal') and len(ra) and np.max(ra) >= pf.TWO_PI:
+        # azi_to_ra_transform reduces twice: the result is in the half-open range
+        return '%s: right ascension %r is not below 2*pi' % (scr, float(np.max(ra)))
     if len(ra) and (not np.all(np.isfinite(ra)) or np.min(ra) < min(lo, lo_d) or np.max(ra) > max(hi, hi_d)):
         bad = ra[(ra < min(lo, lo_d)) | (ra > max(hi, hi_d)) | ~np.isfinite(ra)]
         return '%s: %d of %d right ascensions outside the configured range [%r, %r] (dtype %s): e.g. %r; min %r max %r' % (
@@ -443,6 +491,9 @@ def ra_exact_check(ctx, case, ra_arr):
 
 # ------------------------------------------------------------------------------------------
 # correspondence
+
+DIAG = {'cache_differs_from_model': 0, 'sharing_among_generated_differs': 0}
+
 
 def parse_head(tok):
     d = dict(x.split('=') for x in tok.split(' '))
@@ -524,6 +575,9 @@ def corr_eval(lines, plan, answers):
                 continue
             for layer, snaps in (('heap model', hs), ('table model', ts)):
                 d = sf.snap_diff(g, snaps[ids[nm]])
+                if d and nm == 'cache':
+                    DIAG['cache_differs_from_model'] += 1      # how the method caches MC is not part of the property
+                    break
                 if d:
                     return 'step %d (%s): %s differs in %r: implementation %r, %s %r' % (
                         k, op['op'], nm, d, _short(g[d]), layer, _short(snaps[ids[nm]][d]))
@@ -547,7 +601,10 @@ def corr_eval(lines, plan, answers):
         for a, b, c, d in share:
             if a in alias and c in alias and alias[a] != alias[c]:
                 got.add((alias[a], b, alias[c], d))
-        if canon(got) != canon(pred):
+        stored = lambda p_: any(x[0] in ('exp', 'mc') for x in p_)   # noqa: E731
+        if canon(got) != canon(pred) and not [p_ for p_ in canon(got) - canon(pred) if stored(p_)]:
+            DIAG['sharing_among_generated_differs'] += 1    # only sharing with the stored data is part of the verdict
+        elif canon(got) != canon(pred):
             return 'step %d (%s): memory sharing: implementation %r, model %r' % (k, op['op'], sorted(canon(got))[:3], sorted(canon(pred))[:3])
     return None
 
@@ -585,7 +642,25 @@ def scr_signature(case, res):
     return 'C07/scramble/%s/%s' % (case['scr'], mode)
 
 
-ORACLES = {'frame': o_frame, 'scramble': o_scramble, 'corr': o_corr}
+def o_ra_corner(ctx, case):
+    """directed corner of skyllh.i3.coords.azi_to_ra_transform: an azimuth one float above the local sidereal angle makes
+    the first np.mod return exactly 2*pi; the transform must still answer inside [0, 2*pi)"""
+    from skyllh.i3.utils.coords import azi_to_ra_transform
+    mjd = np.array(case['mjds'], dtype=np.float64)
+    base = azi_to_ra_transform(np.zeros_like(mjd), mjd)       # = angle(mjd) mod 2*pi, the value the azimuth is subtracted from
+    for ulps in case['ulps']:
+        azi = base.copy()
+        for _ in range(abs(ulps)):
+            azi = np.nextafter(azi, np.inf if ulps > 0 else -np.inf)
+        for a in (azi, np.mod(azi, pf.TWO_PI)):
+            ra = azi_to_ra_transform(a, mjd)
+            if not np.all((ra >= 0) & (ra < pf.TWO_PI)):
+                i = int(np.argmax(~((ra >= 0) & (ra < pf.TWO_PI))))
+                return 'azi_to_ra_transform(azi=%r, mjd=%r) = %r is outside [0, 2*pi)' % (float(a[i]), float(mjd[i]), float(ra[i]))
+    return None
+
+
+ORACLES = {'ra_corner': o_ra_corner, 'frame': o_frame, 'scramble': o_scramble, 'corr': o_corr}
 
 
 def shrink(case, mode):
@@ -646,6 +721,15 @@ def run(ctx):
             if res:
                 # look for a failing input with the range oracle first (it already passed above: report the value relation)
                 ctx.violation('scramble', c, res, signature=scr_signature(c, res))
+    # ---- directed corner of the time scramblers' coordinate transform
+    for i in range(ctx.n(20, 200)):
+        case = {'mjds': [0.0] + [55000.0 + rng.random() * 3000 for _ in range(30)] + [k * 0.99726956633 for k in range(1, 8)],
+                'ulps': [-2, -1, 0, 1, 2, 3]}
+        ctx.count('ra_corner')
+        ctx.case(key=('corner', case))
+        res = o_ra_corner(ctx, case)
+        if res:
+            ctx.violation('ra_corner', case, res, signature='C07/scramble/azi_to_ra/half-open-range')
     # ---- byte snapshots over histories (incl. Analysis.do_trial)
     maxlen = ctx.n(4, 6)
     for i in range(ctx.n(250, 8000)):
@@ -688,12 +772,13 @@ def run(ctx):
                               kind='correspondence', relation='exact: public accessors (values as bit patterns) + memory sharing, per operation',
                               signature='C07/corr/' + d.split('(')[1].split(')')[0] if '(' in d else 'C07/corr', no_failing_input=True)
     ctx.extra['correspondence_disagreements'] = dis
+    ctx.extra['diagnostics'] = dict(DIAG)
 
 
 MANIFEST = dict(
     text=('Lean theorems on the heap model shared with C16: every pseudo-data operation (all three background generation methods, incl. the composite MC method, with any '
           'scrambling method, signal generation, merge by append, initialize_trial, unblind on a copy, evaluate) is the exact sequence of '
-          'container operations of the code; none of them targets the stored containers (c07_compile_targets), hence for every history '
+          'container operations of the code; none of them targets the stored containers (c07_compile_targets), hence for every history (the real MC signal generator with its write-through set_selection and the evaluation-time assignments included) '
           'data.exp and data.mc read the same afterwards (c07_frame) and share no location with any generated container '
           '(c07_no_alias_inv); scrambling changes only the assigned fields and keeps the length; RA inside any configured range over the reals (no [0,2pi) assumption); the uniform RA is compared with lo+(hi-lo)u on the deviates numpy draws. The model is '
           'compared after every operation with a real LLHRatioAnalysis (public accessors, bit patterns, np.shares_memory); byte '
